@@ -27,7 +27,7 @@ def scen_layouts(ch, params, out):
     n = params.get("models", 4)
     shapes = list(itertools.product(*[range(-1, i) for i in range(n)]))
     parents = ch.choose("parents", shapes, shard=True)
-    wraps = [ch.choose(f"edge{i}", ["obj", "list", "optional", "dict"]) for i in range(n)]
+    wraps = [ch.choose(f"edge{i}", ["obj", "list", "optional", "list_of_lists"] if parents[i] == -1 else ["obj", "list", "list_of_lists"]) for i in range(n)]
     twins = [ch.flag(f"twin_of_previous{i}") if i > 0 and params.get("twins") else False for i in range(n)]
     fw = ch.choose("framework", params.get("frameworks", ["base", "pydantic", "sqlmodel", "attrs", "dataclasses"]))
 
@@ -49,6 +49,8 @@ def scen_layouts(ch, params, out):
         w = wraps[j]
         if w == "list":
             return [v]
+        if w == "list_of_lists":
+            return [[v], []]
         return v
 
     root1 = {"rootid": 1}
@@ -60,7 +62,6 @@ def scen_layouts(ch, params, out):
                 root2[f"m{j}"] = wrapv(j)
     # optional edges below the root level: second occurrence of the parent lacks the child -> needs list parents; keep it simple:
     samples = [root1, root2]
-    dkf = [f"m{j}" for j in range(n) if wraps[j] == "dict"]
     out.info = {"parents": list(parents), "wraps": wraps, "twins": twins, "framework": fw}
     ctx = lambda: f"parents={parents} wraps={wraps} twins={twins} fw={fw}"
     try:
@@ -172,7 +173,7 @@ META = {
     "level": "exploration", "mode": "CH-E",
     "explanation": "for every tree-shaped model graph within the bound both layouts are emitted by the real code, loaded, and compared class by class; flat completeness also on merged / shared / recursive graphs",
     "functions_encoded": ["compose_models", "compose_models_flat", "extract_root", "filter_pointers", "ListEx / PositionsDict", "_generate_code / generate_code", "indent"],
-    "symbolic_on_path": ["parent index per model", "edge kind (object / list / optional / plain) per model", "twin-of-previous bit (identical field sets, unmerged)", "framework"],
+    "symbolic_on_path": ["parent index per model", "edge kind (object / list / list of lists / optional at root level) per model", "twin-of-previous bit (identical field sets, unmerged)", "framework"],
     "bounds": {"quick": "3 nested models (6 tree shapes) x 4 edge kinds each x twin bits x 5 frameworks; flat completeness on 4 non-tree templates x 24 keys x 5 frameworks",
                "thorough": "4 nested models (24 tree shapes)"},
     "outside_claim": ["graphs with more than 4 nested models", "nested layout for non-tree graphs (excluded by the property)"],
